@@ -481,13 +481,37 @@ fn check_parts(p: &Parts<'_>, s: Style) {
 
 macro_rules! structure_case {
     ($name:ident, $render:expr) => {
+        structure_case!($name, $render, 9, 9, 9);
+    };
+    ($name:ident, $render:expr, $kf:expr, $kb:expr, $ku:expr) => {
+        structure_case!($name, $render, $kf, $kb, $ku, None);
+    };
+    ($name:ident, $render:expr, $kf:expr, $kb:expr, $ku:expr, $fx:expr) => {
         /// Whole styles, everything symbolic: the output is the in-order concatenation of
         /// the renderings of exactly the parts the style has.
         #[kani::proof]
         #[kani::unwind(22)]
         fn $name() {
             use core::fmt::Write as _;
-            let s = any_style();
+            // kind 9: any colour kind; 0/1/2: 16-colour / 256-colour / RGB (concrete shape)
+            let pick = |k: u8| -> Option<Color> {
+                if !kani::any::<bool>() {
+                    None
+                } else if k == 9 {
+                    Some(any_color())
+                } else {
+                    Some(kind_color(k))
+                }
+            };
+            let s = Style::new()
+                .fg_color(pick($kf))
+                .bg_color(pick($kb))
+                .underline_color(pick($ku))
+                .effects(effects_from_bits(match $fx {
+                    // a concrete effect set (quick tier; `effects_structure` covers every set)
+                    Some(bits) => bits,
+                    None => any_effect_bits(),
+                }));
             let eff = effect_refs();
             let mut cols: [Sink<20>; 3] = core::array::from_fn(|_| Sink::new());
             if let Some(c) = s.get_fg_color() {
@@ -508,9 +532,9 @@ macro_rules! structure_case {
             let render: fn(&mut Parts<'_>, Style) = $render;
             render(&mut p, s);
             check_parts(&p, s);
-            kani::cover!(p.seen_eff == 0xFFF && p.seen_col[0] && p.seen_col[1] && p.seen_col[2]);
-            kani::cover!(s.is_plain());
-            kani::cover!(p.seen_col[2] && !p.seen_col[0] && p.seen_eff.count_ones() == 2);
+            kani::cover!(p.seen_col[0] && p.seen_col[1] && p.seen_col[2]);
+            kani::cover!(!p.seen_col[0] && !p.seen_col[1] && !p.seen_col[2]);
+            kani::cover!(p.seen_col[2] && !p.seen_col[0]);
         }
     };
 }
@@ -525,6 +549,29 @@ structure_case!(style_structure_render, |p, s| {
 structure_case!(style_structure_write_to, |p, s| {
     assert!(s.write_to(p).is_ok());
 });
+// concrete effect set + any colour of any kind in any subset of the slots (quick tier)
+structure_case!(style_structure_display_fx, |p, s| {
+    use core::fmt::Write as _;
+    let _ = write!(p, "{}", s);
+}, 9, 9, 9, Some(0b1000_0000_1001u16));
+structure_case!(style_structure_write_to_fx, |p, s| {
+    assert!(s.write_to(p).is_ok());
+}, 9, 9, 9, Some(0b0100_0001_0010u16));
+// concrete colour kinds per slot (everything else symbolic)
+structure_case!(style_structure_display_k012, |p, s| {
+    use core::fmt::Write as _;
+    let _ = write!(p, "{}", s);
+}, 0, 1, 2);
+structure_case!(style_structure_display_k120, |p, s| {
+    use core::fmt::Write as _;
+    let _ = write!(p, "{}", s);
+}, 1, 2, 0);
+structure_case!(style_structure_write_to_k201, |p, s| {
+    assert!(s.write_to(p).is_ok());
+}, 2, 0, 1);
+structure_case!(style_structure_write_to_k012, |p, s| {
+    assert!(s.write_to(p).is_ok());
+}, 0, 1, 2);
 
 /// Effects alone through `Effects::render`.
 #[kani::proof]
